@@ -63,7 +63,7 @@ pub fn driver_tiny() -> Driver {
         base: tiny_base(),
         alphabet: alphabet.iter().map(|s| s.to_string()).collect(),
         probes: probes.iter().map(|s| s.to_string()).collect(),
-        failing: vec!["1/0".into(), "let = )".into(), "nonexistent_name".into()],
+        failing: ["1/0", "let = )", "nonexistent_name", "let u = 1/0", "dimension D\nlet q0 = 1/0", "fn f(x) = x\nlet q1 = 1/0", "let S = 1/0", "use ma\nlet q2 = 1/0", "let c: Length = 1", "unit xs\nlet q3 = 1/0", "unit a: D2"].iter().map(|s| s.to_string()).collect(),
     }
 }
 
@@ -95,7 +95,7 @@ pub fn driver_prelude() -> Driver {
         base: prelude_ctx(),
         alphabet: alphabet.iter().map(|s| s.to_string()).collect(),
         probes: probes.iter().map(|s| s.to_string()).collect(),
-        failing: vec!["1/0".into(), "1 m + 1 s".into()],
+        failing: ["1/0", "1 m + 1 s", "let smoot2 = 1/0", "fn f(x) = x\nerror(\"stop\")", "unit gg\nlet q4 = 1/0", "let xs: Time = 1 m"].iter().map(|s| s.to_string()).collect(),
     }
 }
 
@@ -229,15 +229,17 @@ fn check_history(d: &Driver, hist: &[u8], inc_ctx: &Context, inc_results: &[RunR
         let mut ctx = d.base.clone();
         let mut expected_saved = String::new();
         for i in 0..n {
-            // a failing line before each good line
+            // every failing line of the driver before each good line (they include inputs that define
+            // the very names the good lines define, then fail at run time or in the type checker)
             if with_failing {
-                let bad = &d.failing[i % d.failing.len()];
-                let rb = run(&mut ctx, bad);
-                agg.executions += 1;
-                runner.push_to_history(bad, if rb.is_ok() { Ok(()) } else { Err(()) });
-                if rb.is_ok() {
-                    agg.machinery.push(format!("failing line {bad:?} unexpectedly succeeded"));
-                    return;
+                for bad in &d.failing {
+                    let rb = run(&mut ctx, bad);
+                    agg.executions += 1;
+                    runner.push_to_history(bad, if rb.is_ok() { Ok(()) } else { Err(()) });
+                    if rb.is_ok() {
+                        agg.machinery.push(format!("failing line {bad:?} unexpectedly succeeded"));
+                        return;
+                    }
                 }
             }
             let r = run(&mut ctx, lines[i]);
